@@ -61,7 +61,8 @@ def execute_sim(case):
     classes = set()
     h = None
     try:
-        for i, kind in enumerate(case.get("sockets", [])):
+        for i, kind in enumerate([] if case["history"].get("config")
+                                 else case.get("sockets", [])):
             if kind == 'unix':
                 socks.append(CircusSocket(
                     name='s%d' % i, path=os.path.join(tmp, 's%d.sock' % i)))
@@ -74,7 +75,11 @@ def execute_sim(case):
                 socks.append(CircusSocket(name='s%d' % i, host='127.0.0.1',
                                           port=0))
         hc = dict(case["history"])
-        hc["arbiter"] = dict(hc.get("arbiter") or {}, sockets=list(socks))
+        if not hc.get("config"):
+            hc["arbiter"] = dict(hc.get("arbiter") or {},
+                                 sockets=list(socks))
+        else:
+            classes.add('config-file-history')
         gwarm = float((case["history"].get("arbiter") or {})
                       .get("warmup_delay", 0))
         h = History(hc)
@@ -127,7 +132,8 @@ def execute_sim(case):
                 classes.add('second-trigger')
         k.disarm()
         k.cancel_lifetimes()
-        deadline = w.loop.time() + _bound(hc["watchers"], gwarm)
+        deadline = w.loop.time() + _bound(hc["watchers"], gwarm) * (
+            3 if hc.get("config") else 1)
         w.advance_until(lambda: w.exited, deadline)
         if any(r["beh"].get("react") == 'ignore' for r in k.spawn_log):
             classes.add('stubborn-worker')
@@ -353,6 +359,13 @@ ENUM_OPS = {
                       ["check"]],
     "kill": [["req", "kill", {"name": "w0"}]],
     "arbiter-restart": [["req", "restart", {}]],
+    # config-file worlds: the file is edited, then re-read
+    "reloadconfig-removed": [["cfg", {"remove": "w0"}],
+                             ["req", "reloadconfig", {}]],
+    "reloadconfig-changed": [["cfg", {"set": ["w0", "cmd", "other"]}],
+                             ["req", "reloadconfig", {}]],
+    "reloadconfig-circus": [["cfg", {"circus": {"httpd_port": 8081}}],
+                            ["req", "reloadconfig", {}]],
 }
 
 
@@ -365,6 +378,11 @@ def _enum_case(opname, trig, steps, stubborn, during_start=None):
             {"react": "die", "delay": 0.05},
             "arbiter": {"warmup_delay": 0.3},
             "ops": list(ENUM_OPS[opname]) + [["next"]] * steps}
+    if opname.startswith('reloadconfig'):
+        hist["config"] = True
+        hist["arbiter"] = {"warmup_delay": 0}
+        for wc in watchers:
+            wc["warmup_delay"] = 0
     c = {"history": hist, "trigger": trig,
          "sockets": ["inet", "unix", "unix-dgram"]}
     if during_start is not None:
@@ -399,7 +417,8 @@ def _sim_strategy():
     from hypothesis import strategies as st
     base = lifecycle_cases(
         requests=('incr', 'decr', 'set', 'restart', 'reload', 'stop',
-                  'start'), kill_cmd=True, hooks=True, max_ops=16, set_other=True)
+                  'start'), kill_cmd=True, hooks=True, max_ops=16,
+        set_other=True, config=True)
     trig = st.sampled_from(['quit', 'TERM', 'INT', 'QUIT'])
 
     @st.composite
